@@ -4,9 +4,11 @@ CONSTANT SetPws = {"p1"}
 CONSTANT TryPws = {}
 CONSTANT Presenters = {1, 2}
 CONSTANT EpochIds = {1, 2, 3, 4, 5}
-CONSTANT MaxSteps = 8
-CONSTANT Ops <- ConcOps
-CONSTANT SessChecksDisabled = FALSE
+CONSTANT MaxSteps = 11
+CONSTANT Ops <- ConcAgeOps
+CONSTANT SessChecksDisabled = TRUE
+CONSTANT RefreshUpserts = TRUE
+CONSTANT InFlightOps = {}
 SPECIFICATION Spec
 INVARIANT BehaviourExportConc
 CHECK_DEADLOCK FALSE
